@@ -13,7 +13,7 @@ func init() {
 		Decided: "the per-peer exchange fields (stream, reader, invalid flag, single-message counter) are touched only with the per-peer mutex held, the caller-holds helpers are called only under it (R1); " +
 			"on every failing path of an exchange (write error, read error of any kind incl. timeout and cancellation) the stream is reset and dropped before the next attempt or return, with at most one retry (R2); " +
 			"a stream is opened only in prep when none exists and the sender is valid; the sender map is accessed only under its lock and lookup+insert form one critical section (R3); " +
-			"the reply wait is bounded (R4 = C10.R5); a disconnect removes the map entry and invalidates the sender, and both subscribers call it for every non-Connected event (R5); the reply object is fresh per attempt (R6). Added after the seeded rounds: invalidate() marks the sender invalid on every path, OnDisconnect runs under the client's lifetime context (R5); after a successful write every return lies behind a successful read or a stream reset (R6); a sender leaves the map only behind `prepOrInvalidate invalidated it` (R3, defect D17).",
+			"the reply wait is bounded (R4 = C10.R5); a disconnect removes the map entry and invalidates the sender, and both subscribers call it for every non-Connected event (R5); the reply object is fresh per attempt (R6). Added after the seeded rounds: invalidate() marks the sender invalid on every path, OnDisconnect runs under the client's lifetime context (R5); after a successful write every return lies behind a successful read or a stream reset (R6); a sender leaves the map only behind `prepOrInvalidate invalidated it` (R3, defect D17). Round 4: the creator removes the map entry only while it still is the sender it registered (R3).",
 		NotDecided: "FIFO behaviour of the transport; that the remote answers requests in order.",
 	})
 }
